@@ -25,20 +25,21 @@ import (
 )
 
 type cfgDef struct {
-	graph     string
-	downFirst [][2]int         // links that are down in the initial state (late joiners)
-	prefixes  map[int][]string // router -> prefixes it may announce / withdraw
-	announced bool             // the prefixes are already announced and propagated in the initial state
-	faces     [][2]int         // directed (i,j): i may hear j on an alternate face
-	passive   [][2]int         // directed (i,j): i hears j's regular sync Interests under the passive prefix
-	faults    [][2]int         // links that may fail and come back
-	restarts  []int            // routers that may stop and restart
-	burstAt   int              // router that may publish a burst of operations on /p3 (-1: none)
-	bursts    []int
-	failFetch bool // fetch-timeout deviation
-	exchange  bool // X(i<j) events in the alphabet
-	dq, dt    int  // depth quick / thorough
-	dev       int  // deviation bound (faults, restarts, bursts, fetch failures)
+	graph        string
+	downFirst    [][2]int         // links that are down in the initial state (late joiners)
+	prefixes     map[int][]string // router -> prefixes it may announce / withdraw
+	routerPrefix string           // router name prefix (default /ndn: two-component router names)
+	announced    bool             // the prefixes are already announced and propagated in the initial state
+	faces        [][2]int         // directed (i,j): i may hear j on an alternate face
+	passive      [][2]int         // directed (i,j): i hears j's regular sync Interests under the passive prefix
+	faults       [][2]int         // links that may fail and come back
+	restarts     []int            // routers that may stop and restart
+	burstAt      int              // router that may publish a burst of operations on /p3 (-1: none)
+	bursts       []int
+	failFetch    bool // fetch-timeout deviation
+	exchange     bool // X(i<j) events in the alphabet
+	dq, dt       int  // depth quick / thorough
+	dev          int  // deviation bound (faults, restarts, bursts, fetch failures)
 }
 
 var defs = map[string]cfgDef{
@@ -55,8 +56,12 @@ var defs = map[string]cfgDef{
 	// pairwise share one exit router (r1:{p1,p2} r2:{p1,p3} r3:{p2,p3}), announced in the initial state
 	"mirror-star3": {graph: "n4:01-02-03", prefixes: map[int][]string{1: {"/p1", "/p2"}, 2: {"/p1", "/p3"}, 3: {"/p2", "/p3"}}, announced: true,
 		faults: [][2]int{{0, 1}}, burstAt: -1, exchange: true, dq: 4, dt: 6, dev: 2},
+	// installer: diamond, observer r0 with three neighbours; r1 is reached directly and at equal
+	// second-best cost over r2 and r3 (tie on the second-best hop); links 1-2 / 1-3 may fail
+	"mirror-diamond": {graph: "n4:01-02-03-12-13", prefixes: map[int][]string{1: {"/p1"}}, announced: true,
+		faults: [][2]int{{1, 2}, {1, 3}}, burstAt: -1, exchange: true, dq: 4, dt: 6, dev: 2},
 	// log: publisher r1, peer r0; bursts across the snapshot threshold; failing fetches; publisher restart
-	"log-pair": {graph: "n2:01", prefixes: map[int][]string{1: {"/p1", "/p2"}}, burstAt: 1, bursts: []int{98, 99, 100, 101},
+	"log-pair": {graph: "n2:01", routerPrefix: "/ndn/site/dept", prefixes: map[int][]string{1: {"/p1", "/p2"}}, burstAt: 1, bursts: []int{98, 99, 100, 101},
 		restarts: []int{1}, failFetch: true, dq: 7, dt: 9, dev: 2},
 	// log: publisher r0, peer r1, late joiner r2 (link 1-2 down at first)
 	"log-join": {graph: "n3:01-12", downFirst: [][2]int{{1, 2}}, prefixes: map[int][]string{0: {"/p1", "/p2"}}, faults: [][2]int{{1, 2}},
@@ -354,13 +359,16 @@ func build(cfg string) explore.System {
 		report.Fatal("%v", err)
 	}
 	y := &sys{name: cfg, d: d, g: g, opsCache: map[string][]explore.Op{}}
-	y.m = dvsim.NewMachine(g, y.initSim, applyOp)
+	y.m = dvsim.NewMachineOpt(g, y.initSim, applyOp, dvsim.Options{RouterPrefix: d.routerPrefix}, "C19|"+cfg)
 	return y
 }
 
 func main() {
 	debug.SetGCPercent(400)
-	order := []string{"mirror-star3", "mirror-line3", "mirror-tri", "mirror-square", "log-pair", "log-join"}
+	if _, w := explore.IsWorker(); !w {
+		dvsim.ResetFallbackDir("C19")
+	}
+	order := []string{"mirror-star3", "mirror-diamond", "mirror-line3", "mirror-tri", "mirror-square", "log-pair", "log-join"}
 	explore.Main(explore.Spec{
 		ID: "C19", PanicClause: "C19.panic", Build: build,
 		Configs: func(th bool) []explore.Config {
@@ -387,13 +395,19 @@ func main() {
 			}
 			return 100 * time.Second
 		},
-		Rule: "BFS over histories of prefix announce/withdraw/burst, prefix sync, prefix fetch (success/timeout), advertisement exchange, neighbour face change (active/passive), link failure/repair + dead-neighbour check and router restart on real dv.Router objects, from the converged state of 6 small topologies; after every transition: drained nfdc command stream replayed into a (name,face) route table vs from-scratch computation from the current tables; peers' reconstructed prefix sets vs publisher's set at the peer's log position; closure of sync+fetch steps must reach the end of the log",
+		Rule: "BFS over histories of prefix announce/withdraw/burst, prefix sync, prefix fetch (success/timeout), advertisement exchange, neighbour face change (active/passive), link failure/repair + dead-neighbour check and router restart on real dv.Router objects, from the converged state of 7 small topologies; after every transition: drained nfdc command stream replayed into a (name,face) route table vs from-scratch computation from the current tables; peers' reconstructed prefix sets vs publisher's set at the peer's log position; closure of sync+fetch steps must reach the end of the log",
+		Extra: func(rep *report.Reporter, cov report.Coverage) {
+			cov["configs_computed_by_plain_reexecution_after_restore_mismatch"] = dvsim.FallbackConfigs("C19")
+		},
 		Assumptions: []string{
 			"harness network: prefix sync state vectors and prefix data Interests reach any router connected over live links; a fetch for an unreachable or stopped router times out",
 			"tasks spawned by one event run to quiescence in FIFO order before the next event; the mirror clause is evaluated at quiescence",
 			"the publisher model (announced set per sequence number) is read from the publisher's own prefix table right after each readvertise command returns",
 			"a restarted router boots with a millisecond clock more than 100 beyond every prefix sequence number of its previous incarnation",
 			"equal canonical state (C18 routing canon + prefix tables with log positions as saturated distances, installed entries, reference routes, parked fetches, unfetched log suffix) implies equal futures; SvSync suppression state is not part of it (it only gates the emission of Sync Interests, which are harness events)",
+			"the route table is replayed from the commands the REAL nfdc management loop (NfdMgmtThread.Start, one real goroutine per router, synchronised by a barrier command after every event) hands to the engine's ExecMgmtCmd, not from the queue contents",
+			"where per-neighbour costs tie, every tied neighbour is accepted as best / second-best next hop; the from-scratch computation uses the per-neighbour costs of the RIB entries, not their stored next-hop fields",
+			"router names have two components (/ndn/rN) except in log-pair (/ndn/site/dept/rN)",
 			"successor states are computed by restoring saved table contents into the live router objects and executing one operation; restores are cross-checked against plain re-execution (first 25 and every 400th per worker)",
 		},
 	})
